@@ -17,7 +17,7 @@ const FILES: &[(&str, &str, bool)] = &[
     // a script path that is not in normal form: a different input than "e.wxs", whatever the group makes of it
     ("./e.wxs", "exports.g = 3;", true),
     // many distinct references of every kind from one file: their emission order must be the source order
-    ("f", "<import src=\"a\"/><import src=\"b\"/><import src=\"c\"/><import src=\"d\"/><import src=\"x/y\"/><import src=\"z\"/><wxs module=\"m1\" src=\"e.wxs\"/><wxs module=\"m2\" src=\"lib/u.wxs\"/><wxs module=\"m3\">exports.h = 2</wxs><include src=\"a\"/><include src=\"c\"/><template name=\"t1\">1</template><template name=\"t2\">2</template><template name=\"t3\">3</template><template is=\"t\"/><view bind:tap=\"h1\" catch:tap=\"h2\" data-a=\"{{r}}\" data-b=\"{{s}}\" mark:a=\"{{t}}\" mark:b=\"{{u}}\" class=\"{{ca}} {{cb}}\">{{m1.g}}{{m2.g}}{{m3.h}}</view>", false),
+    ("f", "<import src=\"a\"/><import src=\"b\"/><import src=\"c\"/><import src=\"d\"/><import src=\"x/y\"/><import src=\"z\"/><wxs module=\"m1\" src=\"e.wxs\"/><wxs module=\"m2\" src=\"lib/u.wxs\"/><wxs module=\"m3\">exports.h = 2</wxs><include src=\"a\"/><include src=\"c\"/><template name=\"t1\">1</template><template name=\"t2\">2</template><template name=\"t3\">3</template><template is=\"t\"/><view bind:tap=\"h1\" catch:tap=\"h2\" data-a=\"{{r}}\" data-b=\"{{s}}\" mark:a=\"{{t}}\" mark:b=\"{{u}}\" class=\"{{ca}} {{cb}}\">{{m1.g}}{{m2.g}}{{m3.h}}</view><comp generic:ga=\"x\" generic:gb=\"y\" generic:gc=\"z\" generic:gd=\"w\" generic:ge=\"v\" extra-attr:ea=\"1\" extra-attr:eb=\"2\" extra-attr:ec=\"3\" worklet:wa=\"p\" worklet:wb=\"q\" worklet:wc=\"r\" change:pa=\"{{m1.g}}\" change:pb=\"{{m2.g}}\" change:pc=\"{{m3.h}}\" model:ma=\"{{r}}\" model:mb=\"{{s}}\"/>", false),
 ];
 const BOUND: &str = "9 files (4 of them script files, one under a path that is not in normal form) (one with 6 imports, 3 script modules, 2 includes, 3 sub-templates, several attributes of every kind); in normal and dev mode; every subset of 3 and 4 files in every insertion order, compiled twice; plus split-and-import_group of each subset";
 
